@@ -567,4 +567,60 @@ theorem run_config_dataflow_flat {ops : List Op} (hv : Valid {} ops) (hf : flatO
   exact ⟨run_config_wf_flat hv hf hc _ _ _ _ _, run_config_wfShape hv (flat_uniformT hb hfw) hc _ _ _ _ _,
     run_config_pushOk_flat_of_built hb hfw hc _ _ _ _ _, run_config_pullOk_flat_of_built hb hfw hc _ _ _ _ _⟩
 
+/-! ### uniform connection paths give uniform trigger paths -/
+
+/-- a connection appended to a path of connections: the cutoff is the minimum -/
+theorem realPath_snoc_cutoff {sims : List SimCfg} {s m t : Sid} {path : List Sid} {d d0 : TI}
+    (hp : RealPath sims s m path d) (he : (m, d0) ∈ (sims.getD t {}).inputDelays) :
+    ∃ path' d', RealPath sims s t path' d' ∧ d'.cutoff = min d.cutoff d0.cutoff := by
+  induction hp with
+  | @edge s m d1 he1 => exact ⟨[s, m, t], TI.add d1 d0, RealPath.cons he1 (RealPath.edge he), rfl⟩
+  | @cons s x m d1 dm path0 he1 _ ih =>
+    obtain ⟨path', d', hp', hc'⟩ := ih he
+    refine ⟨s :: path', TI.add d1 d', RealPath.cons he1 hp', ?_⟩
+    simp only [TI.add, hc']
+    omega
+
+/-- along every trigger path runs a path of connections with the same cutoff (a trigger connection and the pair's
+`input_delays` entry have the same shape) -/
+theorem trigPath_realPath_cutoff {w : World} (h : BuiltOk w) {s t : Sid} {d : TI} (hp : TrigPath w.sims s t d) :
+    ∃ path d', RealPath w.sims s t path d' ∧ d'.cutoff = d.cutoff := by
+  have hedge : ∀ m tr, tr ∈ (w.sims.getD m {}).triggers →
+      ∃ d0, (m, d0) ∈ (w.sims.getD tr.2.1 {}).inputDelays ∧ d0.cutoff = tr.2.2.cutoff := by
+    intro m tr htr
+    have hm : m < w.sims.length := by
+      by_cases hm : m < w.sims.length
+      · exact hm
+      · rw [List.getD_eq_getElem?_getD, List.getElem?_eq_none (Nat.le_of_not_lt hm)] at htr
+        cases htr
+    obtain ⟨h1, h2, d0, h3, _⟩ := h.trig m hm tr htr
+    have hs0 := (h.inShape tr.2.1 h1 (m, d0) (lookupTI_mem h3)).2
+    exact ⟨d0, lookupTI_mem h3, hs0.2.2.trans h2.2.2.symm⟩
+  induction hp with
+  | edge he =>
+    obtain ⟨d0, h1, h2⟩ := hedge _ _ he
+    exact ⟨_, d0, RealPath.edge h1, h2⟩
+  | @snoc m dm tr _ he ih =>
+    obtain ⟨path, d', hp', hc'⟩ := ih
+    obtain ⟨d0, h1, h2⟩ := hedge _ _ he
+    obtain ⟨path'', d'', hp'', hc''⟩ := realPath_snoc_cutoff hp' h1
+    exact ⟨path'', d'', hp'', by rw [hc'', hc', h2]; rfl⟩
+
+theorem uniformT_of_uniform {w : World} (h : BuiltOk w) (hU : Uniform w.sims) : UniformT w.sims := by
+  intro s t d d' hp hp'
+  obtain ⟨p1, e1, hr1, hc1⟩ := trigPath_realPath_cutoff h hp
+  obtain ⟨p2, e2, hr2, hc2⟩ := trigPath_realPath_cutoff h hp'
+  rw [← hc1, ← hc2]
+  exact hU s t p1 e1 p2 e2 hr1 hr2
+
+/-- **the executable uniformity check suffices**: for every scenario built by valid calls whose tables pass `uniformB` (every
+generated scenario outside finding D7 does), the run configuration satisfies `WFCfg` and `WFShape` -/
+theorem run_config_wf_of_uniformB {ops : List Op} (hv : Valid {} ops) (hub : uniformB (build ops).sims = true) {orc : List Nat}
+    {out : List SimCfg} (hc : cacheTriggeringAncestors (build ops).sims orc = .ok out) (until_ maxLoop : Nat)
+    (lazy_ useCache strict : Bool) :
+    WFCfg (runCfg out until_ maxLoop lazy_ useCache strict) ∧ WFShape (runCfg out until_ maxLoop lazy_ useCache strict) := by
+  have hb := build_builtOk ops {} builtOk_empty hv
+  have hU := uniformT_of_uniform hb (uniformB_sound hub)
+  exact ⟨run_config_wf hv hU hc _ _ _ _ _, run_config_wfShape hv hU hc _ _ _ _ _⟩
+
 end Mosaik.Build
